@@ -89,12 +89,15 @@ def run_tlc(workdir, module, cfg, env=None, workers=None, timeout=1800, extra=()
     return res
 
 
-def run_harness(binary, family, scn_file, out_file, seed, timeout=3600, workers=None):
+def run_harness(binary, family, scn_file, out_file, seed, timeout=3600, workers=None, env=None):
     cmd = [binary, "-family", family, "-in", scn_file, "-out", out_file, "-seed", str(seed)]
     if workers:
         cmd += ["-workers", str(workers)]
+    e = dict(os.environ)
+    if env:
+        e.update(env)
     try:
-        p = subprocess.run(cmd, capture_output=True, text=True, timeout=timeout)
+        p = subprocess.run(cmd, capture_output=True, text=True, timeout=timeout, env=e)
     except subprocess.TimeoutExpired:
         raise Inconclusive("harness timed out (family %s)" % family)
     if p.returncode != 0:
